@@ -34,13 +34,27 @@ fn run_base<K: HKey>(sid: &Value, cfg: &Cfg, ops: &[Value], sel0: usize, scratch
 }
 
 fn open_observe<K: HKey>(dir: &Path, cfg: &Cfg) -> Value {
+    open_observe_cont::<K>(dir, cfg, false)
+}
+
+/// `cont`: beyond C10 - if the damaged directory was accepted, the store is USED: one put, a clean restart, and what
+/// the restart shows (does an accepted cut poison the log for what is appended behind it?)
+fn open_observe_cont<K: HKey>(dir: &Path, cfg: &Cfg, cont: bool) -> Value {
     let names = names_of(&Universe::<K>::new(&cfg.kt));
     let disk = alpha::alpha(dir, &names, NK);
     let mut st = Store::<K>::new(dir, cfg);
     let res = st.open();
     let obs = st.observe_opt(true);
+    let mut contv = json!({"on": false});
+    if cont && st.cas.is_some() {
+        let put = st.exec(&json!({"op": "put", "k": 4, "c": "C"}), 0);
+        let before = st.observe_opt(true);
+        let re = st.exec(&json!({"op": "reopen"}), 0);
+        let after = st.observe_opt(true);
+        contv = json!({"on": true, "put": put, "reopen": re, "idx_before": before["idx"], "idx_after": after["idx"], "get_after": after["get"]});
+    }
     st.close();
-    json!({"disk": disk, "res": res, "obs": obs})
+    json!({"disk": disk, "res": res, "obs": obs, "cont": contv})
 }
 
 pub fn run_damage<K: HKey>(sid: &Value, cfg: &Cfg, ops: &[Value], sel0: usize, scratch: &Path, out: &mut Out, env: &Value) {
@@ -121,7 +135,7 @@ pub fn run_damage<K: HKey>(sid: &Value, cfg: &Cfg, ops: &[Value], sel0: usize, s
             let _ = fs::remove_dir_all(&dmg);
             copy_dir(&base, &dmg);
             fs::write(dmg.join(&fname), &bytes[..at]).unwrap();
-            let rec = open_observe::<K>(&dmg, cfg);
+            let rec = open_observe_cont::<K>(&dmg, cfg, true);
             out.emit(&json!({"ev": "dmg", "kind": "cut", "seg": id, "at": at, "val": 0, "rec": rec}));
         }
         // altered byte in the checksum or payload of every un-checkpointed record
